@@ -676,6 +676,7 @@ Section Helpers.
     (tl = true \/ (MsgRequestPreVote =? ty) = false) -> hup r tl = Ok r' -> wf r r'.
   Proof.
     intros Htl H. unfold hup in H. destruct (is_leader r); [inversion H; apply wf_refl|].
+    apply bind_ok in H; destruct H as (low & _ & H).
     inv_bind H. destruct x; [inversion H; apply wf_refl|].
     destruct tl; [eapply campaign_real_wf; exact H|].
     destruct Htl as [K|K]; [discriminate|].
@@ -1830,6 +1831,7 @@ Theorem forced_vote_requests r r' :
 Proof.
   intros H. unfold hup in H.
   destruct (is_leader r); [inversion H; subst; exists []; rewrite app_nil_r; auto|].
+  apply bind_ok in H; destruct H as (low & _ & H).
   inv_bind H. destruct x; [inversion H; subst; exists []; rewrite app_nil_r; auto|].
   unfold campaign_real in H. inv_bind H. inv_bind H. destruct x0 as [r2 res].
   let L := spec_hyps_at constr:(become_candidate_wf MsgRequestVote) in apply L in Hx0.
@@ -2679,6 +2681,7 @@ Qed.
 Lemma hup_vip r tl r' : hup r tl = Ok r' -> vip r r'.
 Proof.
   intros H. unfold hup in H. destruct (is_leader r); [inversion H; apply vip_refl|].
+  apply bind_ok in H; destruct H as (low & _ & H).
   inv_bind H. destruct x; [inversion H; apply vip_refl|].
   destruct tl; [eapply campaign_real_vip; exact H|].
   destruct (r_pre_vote r); [eapply campaign_pre_vip; exact H|eapply campaign_real_vip; exact H].
